@@ -1126,15 +1126,23 @@ class FortranFile:
         post_lines = []
         if forward:
             if self.fixed:
-                if line_ind < self.nLines:
+                # Comment and blank lines may sit between continuation lines, they
+                # only count when another continuation line follows
+                skipped = 0
+                while line_ind < self.nLines - 1:
                     next_line = self.get_line(line_ind, pp_content)
                     line_ind += 1
-                    cont_match = FRegex.FIXED_CONT.match(next_line)
-                    while (cont_match is not None) and (line_ind < self.nLines):
+                    if next_line.strip() == "" or (
+                        FRegex.FIXED_COMMENT.match(next_line)
+                        and not FRegex.FIXED_OPENMP.match(next_line)
+                    ):
+                        skipped += 1
+                    elif FRegex.FIXED_CONT.match(next_line):
+                        post_lines.extend([""] * skipped)
                         post_lines.append(" " * 6 + next_line[6:])
-                        next_line = self.get_line(line_ind, pp_content)
-                        line_ind += 1
-                        cont_match = FRegex.FIXED_CONT.match(next_line)
+                        skipped = 0
+                    else:
+                        break
             else:
                 line_stripped = strip_strings(curr_line, maintain_len=True)
                 iAmper = line_stripped.find("&")
